@@ -146,10 +146,15 @@ func decodeStruct(p Paragraph, into reflect.Value) error {
 		field := into.Field(i)
 		fieldType := into.Type().Field(i)
 
-		if field.Type().Kind() == reflect.Struct {
-			err := decodeStruct(p, field)
-			if err != nil {
-				return err
+		if field.Type().Kind() == reflect.Struct && field.Type() != paragraphType {
+			/* Walk into plain nested structs. Types that unpack themselves
+			 * (versions, dependencies, ...) are left alone: their members
+			 * are not fields of the Paragraph. */
+			if _, ok := field.Addr().Interface().(Unmarshallable); !ok {
+				err := decodeStruct(p, field)
+				if err != nil {
+					return err
+				}
 			}
 		}
 
@@ -217,6 +222,17 @@ func decodeStructValue(field reflect.Value, fieldType reflect.StructField, value
 		}
 		field.SetInt(int64(value))
 		return nil
+	case reflect.Uint:
+		if value == "" {
+			field.SetUint(0)
+			return nil
+		}
+		value, err := strconv.ParseUint(value, 10, 0)
+		if err != nil {
+			return err
+		}
+		field.SetUint(value)
+		return nil
 	case reflect.Slice:
 		return decodeStructValueSlice(field, fieldType, value)
 	case reflect.Struct:
@@ -267,6 +283,11 @@ func decodeStructValueSlice(field reflect.Value, fieldType reflect.StructField, 
 	}
 
 	value = strings.Trim(value, strip)
+
+	if value == "" {
+		/* An empty field is an empty list, not a list of one empty element */
+		return nil
+	}
 
 	for _, el := range strings.Split(value, delim) {
 		el = strings.Trim(el, strip)
